@@ -13,8 +13,8 @@ class World(S.WorldComponent):
     name = "world"
     prop = "C01"
     theorems = ["fragments_join", "markReceived_once", "pop_sound", "C01_ordered", "C01_unordered"]
-    mix = [("reliable", False, 3), ("reliable", True, 2), ("reliable-heavy-loss", False, 2), ("clean", False, 1),
-           ("mixed-pr", False, 1)]
+    mix = [("reliable", False, 2), ("reliable", True, 1), ("reorder-frag", True, 2), ("reorder-frag", False, 1),
+           ("reliable-heavy-loss", False, 2), ("clean", False, 1), ("mixed-pr", False, 1)]
     quick = (32, 260)
     thorough = (300, 500)
     oracles = [S.oracle_no_crash, S.oracle_c01]
